@@ -1614,3 +1614,21 @@ End LeaderInit.
    sequence deltas, so when the generated key already holds an ephemeral record (reachable: a literal "p-1" makes
    FindLower return the same last key twice) the old owner's shadow key is never deleted: a stale shadow, and at that
    session's end the record is deleted although not owned.  Reported to C16, which owns the sequence path. *)
+
+(* In the model the end of a session is ONE request, i.e. one log entry applied atomically by every replica: step 2 of
+   session.delete() is a single ProcessWrite of [cleanup_request] (all listed keys, the session key and the shadow
+   range together).  The sessions harness checks on the real leader's WAL that the code still writes exactly that. *)
+Theorem cleanup_write_is_one_request meta_enc meta_dec cfg mn mx w id offset ts c rest :
+  take_closing has_keys id (sw_closing w) = Some (c, rest) ->
+  sw_db (fst (step meta_enc meta_dec cfg mn mx w (ACleanupWrite id offset ts))) =
+  fst (process_write wrapper_callbacks cfg (sw_db w)
+         (cleanup_request id (match cl_keys c with Some ks => ks | None => [] end)) offset ts) /\
+  w_puts (cleanup_request id (match cl_keys c with Some ks => ks | None => [] end)) = [] /\
+  In (mkDel (session_key id) None) (w_dels (cleanup_request id (match cl_keys c with Some ks => ks | None => [] end))) /\
+  w_ranges (cleanup_request id (match cl_keys c with Some ks => ks | None => [] end)) = [mkRange (shadow_lo id) (shadow_hi id)].
+Proof.
+  intro H. cbn [step]. rewrite H.
+  destruct (process_write wrapper_callbacks cfg (sw_db w) _ offset ts) as [db' r]. cbn [fst sw_db].
+  split; [reflexivity|]. split; [reflexivity|]. split; [|reflexivity].
+  cbn [cleanup_request w_dels]. apply in_or_app. right. left. reflexivity.
+Qed.
